@@ -29,8 +29,10 @@ POOLS = {
     "idn": ["télérama", "fr", "рф", "www", "bücher"],
     "edge": ["localhosting", "com", "x-1", "a1", "1a"],
     "digits": ["1", "22", "com", "a"],
+    # labels that are string-suffixes of each other: whole labels must be compared
+    "suffixy": ["a", "ba", "a-b", "com"],
 }
-POOL_ORDER = ["ab", "abc", "abcd", "real", "idn", "edge", "digits"]
+POOL_ORDER = ["ab", "abc", "abcd", "real", "idn", "edge", "digits", "suffixy"]
 URL_FORMS = ["http", "bare", "port", "schemeless", "auth", "split", "https_q"]
 NONSTRING = ["none", "int", "list", "bytes"]
 FAULT_KINDS = ["iter_cancel", "add_raises"]
@@ -169,9 +171,9 @@ def generate(seed, run, tier):
     if family == "bundled":
         return generate_bundled(crng, srng)
 
-    pool = weighted_choice(crng, [("ab", 30), ("abc", 25), ("abcd", 8), ("real", 12), ("idn", 12), ("edge", 8), ("digits", 5)])
+    pool = weighted_choice(crng, [("ab", 30), ("abc", 25), ("abcd", 8), ("real", 12), ("idn", 12), ("edge", 8), ("digits", 5), ("suffixy", 6)])
     alphabet = POOLS[pool]
-    if pool in ("real", "idn", "edge", "digits", "abcd") and crng.random() < 0.5:
+    if pool in ("real", "idn", "edge", "digits", "abcd", "suffixy") and crng.random() < 0.5:
         alphabet = alphabet[: crng.choice([3, 4])]
     depth = crng.choice([2, 3, 3])
     cap = 64 if tier == "quick" else 200
@@ -713,7 +715,7 @@ MATCHERS = {}
 
 TIERS = {
     "quick": {"runs": 4000, "chunk": 50, "budget_s": 60},
-    "thorough": {"runs": 1200000, "chunk": 500, "budget_s": 900},
+    "thorough": {"runs": 100000, "chunk": 200, "budget_s": 1500},
 }
 PROBES = [
     "prune",
